@@ -42,7 +42,7 @@ func ifaceNames(ifs int) []string {
 // behaviour is what the instrumented writer is asked to do; the same fields
 // as the writer record of spec/Writer.tla.
 type behaviour struct {
-	Mode   string // never | whole | prefix | silent
+	Mode   string // never | whole | prefix | edge | silent
 	Sticky bool
 	Piece  int // 0: one piece; p>0: re-chunk in pieces of p; -1: random pieces (never mode only)
 	Cap    int // capacity (whole/prefix), per-Write limit (silent), unused (never)
@@ -120,6 +120,17 @@ func (w *iw) sinkWrite(p []byte) (int, bool) {
 		return n, false
 	case w.b.Sticky && w.failed:
 		return 0, true
+	case w.b.Mode == "edge": // the Write that reaches the capacity reports the error (full count on an exact fit)
+		if len(p) < w.cap {
+			w.sink = append(w.sink, p...)
+			w.cap -= len(p)
+			return len(p), false
+		}
+		n := w.cap
+		w.sink = append(w.sink, p[:n]...)
+		w.cap = 0
+		w.failed = true
+		return n, true
 	case len(p) <= w.cap:
 		w.sink = append(w.sink, p...)
 		w.cap -= len(p)
@@ -194,7 +205,7 @@ type mS struct{ c *iw }
 type mB struct{ c *iw }
 type mR struct{ c *iw }
 
-func (m mW) Write(p []byte) (int, error)        { return m.c.offer(viaWrite, p) }
+func (m mW) Write(p []byte) (int, error)       { return m.c.offer(viaWrite, p) }
 func (m mS) WriteString(s string) (int, error) { return m.c.offer(viaWriteString, []byte(s)) }
 func (m mB) WriteByte(b byte) error {
 	_, err := m.c.offer(viaWriteByte, []byte{b})
